@@ -10,7 +10,7 @@ use domain::base::iana::Rtype;
 use domain::base::{Message, MessageBuilder, Name};
 use domain::net::client::protocol::{AsyncConnect, AsyncDgramRecv, AsyncDgramSend};
 use domain::net::client::request::{
-    ComposeRequest, Error, RequestMessage, RequestMessageMulti, SendRequest,
+    ComposeRequest, Error, RequestMessage, RequestMessageMulti, SendRequest, SendRequestMulti,
 };
 use domain::net::client::stream::verif_hooks::QueriesHook;
 use domain::net::client::{dgram, dgram_stream, load_balancer, multi_stream, redundant, stream};
@@ -735,7 +735,15 @@ enum Step {
     PartialFrame,            // length prefix promises more than is sent, then close
     AnswerAll,
     Silence,
+    SubmitK(usize, u8),      // demux T2: caller k, kind b's' single / b'x' AXFR / b'y' IXFR
+    ReplyX(usize, XRep),     // demux T2: reply with an answer section to caller k's request
 }
+
+#[derive(Clone, Debug)]
+enum Rec { Soa(u32), Other, Bad }
+/// qmode: b's' the request's question, b'e' empty question section, b'n' other name, b'b' unparsable question
+#[derive(Clone, Debug)]
+struct XRep { qmode: u8, rcode: u8, recs: Vec<Rec> }
 
 fn step_tok(s: &Step) -> String {
     match s {
@@ -744,6 +752,7 @@ fn step_tok(s: &Step) -> String {
         Step::Junk => "junk".into(), Step::Sleep(ms) => format!("sleep{}", ms), Step::Close => "close".into(),
         Step::ShortFrame => "short".into(), Step::PartialFrame => "partial".into(), Step::AnswerAll => "answerall".into(),
         Step::Silence => "silence".into(),
+        Step::SubmitK(k, kind) => format!("sub{}{}", *kind as char, k), Step::ReplyX(k, x) => format!("repx{}{:?}", k, x),
     }
 }
 
@@ -770,8 +779,9 @@ async fn peer_reader(mut rd: tokio::io::ReadHalf<tokio::io::DuplexStream>, seen:
     }
 }
 
-fn wire_id(seen: &Seen, k: usize) -> Option<u16> {
-    let q = question(k);
+fn wire_id(seen: &Seen, k: usize) -> Option<u16> { wire_id_q(seen, &question(k)) }
+fn wire_id_q(seen: &Seen, q: &Q) -> Option<u16> {
+    let q = q.clone();
     seen.lock().unwrap().iter().find(|(_, qs)| qs.as_deref() == Some(std::slice::from_ref(&q))).map(|(id, _)| *id)
 }
 
@@ -824,7 +834,7 @@ async fn run_stream_script(ncallers: usize, idle_ms: u64, steps: Vec<Step>) -> S
             Step::AnswerAll => if wr_open {
                 for k in 0..ncallers { if results.lock().unwrap()[k].is_none() { if let Some(id) = wire_id(&seen, k) { wr_open = frame(&mut wr, &reply(b'G', id, &question(k), false)).await; if !wr_open { break; } } } }
             },
-            Step::Silence => {}
+            Step::Silence | Step::SubmitK(..) | Step::ReplyX(..) => {}
         }
     }
     // everything must complete once the peer has fallen silent: one response
@@ -1080,48 +1090,116 @@ fn variant_fields(v: u8, id: u16, k: usize) -> Option<(u16, u8, u8, u8, u8, u8, 
     })
 }
 
+fn kind_q(k: usize, kind: u8) -> Q {
+    let mut q = question(k);
+    q.qtype = match kind { b'x' => 252, b'y' => 251, _ => 1 };
+    q
+}
+
+fn xrep_bytes(x: &XRep, id: u16, q: &Q) -> Vec<u8> {
+    let mut body = Vec::new();
+    let qd: u16 = match x.qmode {
+        b's' => { body.extend_from_slice(&q_wire(q)); 1 }
+        b'n' => { let mut o = q.clone(); o.name = name_wire("other.c15.test"); body.extend_from_slice(&q_wire(&o)); 1 }
+        b'b' => { let w = q_wire(q); body.extend_from_slice(&w[..w.len() - 3]); 1 }
+        _ => 0,
+    };
+    if x.qmode != b'b' {
+        for r in &x.recs {
+            body.extend_from_slice(&q.name);
+            match r {
+                Rec::Soa(serial) => {
+                    body.extend_from_slice(&[0, 6, 0, 1, 0, 0, 0, 60, 0, 22, 0, 0]);
+                    body.extend_from_slice(&serial.to_be_bytes());
+                    body.extend_from_slice(&[0, 0, 0, 1, 0, 0, 0, 1, 0, 0, 0, 1, 0, 0, 0, 1]);
+                }
+                Rec::Other => body.extend_from_slice(&[0, 1, 0, 1, 0, 0, 0, 60, 0, 4, 192, 0, 2, 1]),
+                Rec::Bad => body.extend_from_slice(&[0, 1, 0, 1, 0, 0, 0, 60, 0, 10, 1, 2]),
+            }
+        }
+    }
+    mk_msg(id, true, false, false, x.rcode, [qd, x.recs.len() as u16, 0, 0], &body)
+}
+
+fn xrep_event(x: &XRep, id: u16, k: usize) -> String {
+    let qs = match x.qmode { b's' => format!("{}", k), b'n' => "900".to_string(), b'b' => "bad".to_string(), _ => "-".to_string() };
+    let ans = if x.qmode == b'b' { "bad".to_string() } else if x.recs.is_empty() { "-".to_string() } else {
+        x.recs.iter().map(|r| match r { Rec::Soa(s) => format!("s{}", s), Rec::Other => "o".to_string(), Rec::Bad => "e".to_string() }).collect::<Vec<_>>().join(",") };
+    format!("p{}:1:{}:{}:{}:0:{}:{}", id, x.rcode, if x.qmode == b'e' { 0 } else { 1 }, x.recs.len(), qs, ans)
+}
+
 async fn run_demux_script(ncallers: usize, idle_zero: bool, steps: Vec<Step>) -> (String, String) {
     let (client, server) = tokio::io::duplex(1 << 16);
     let mut cfg = stream::Config::new();
     cfg.set_response_timeout(Duration::from_secs(10));
+    cfg.set_streaming_response_timeout(Duration::from_secs(10));
     cfg.set_idle_timeout(if idle_zero { Duration::ZERO } else { Duration::from_secs(100) });
     let (conn, transport) = stream::Connection::<RequestMessage<Vec<u8>>, RequestMessageMulti<Vec<u8>>>::with_config(client, cfg);
     let th = tokio::spawn(transport.run());
     let (rd, mut wr) = tokio::io::split(server);
     let seen: Seen = Arc::new(Mutex::new(vec![]));
     let ph = tokio::spawn(peer_reader(rd, seen.clone()));
-    let results: Results = Arc::new(Mutex::new(vec![None; ncallers]));
+    let results: Arc<Mutex<Vec<Option<String>>>> = Arc::new(Mutex::new(vec![None; ncallers]));
     let order: Arc<Mutex<Vec<usize>>> = Arc::new(Mutex::new(vec![]));
     let mut callers = Vec::new();
     let mut submitted: Vec<usize> = Vec::new();
+    let mut kinds: Vec<u8> = vec![b's'; ncallers];
     let mut evs: Vec<String> = Vec::new();
     let mut wr_open = true;
     for s in &steps {
         match s {
-            Step::Submit(k) => {
-                let k = *k;
-                let mut g = SendRequest::send_request(&conn, request_for(&question(k)));
+            Step::Submit(_) | Step::SubmitK(..) => {
+                let (k, kind) = match s { Step::SubmitK(k, kind) => (*k, *kind), Step::Submit(k) => (*k, b's'), _ => unreachable!() };
+                kinds[k] = kind;
                 let (results, order) = (results.clone(), order.clone());
-                callers.push(tokio::spawn(async move {
-                    let r = g.get_response().await;
-                    order.lock().unwrap().push(k);
-                    results.lock().unwrap()[k] = Some(r.map(|m| m.as_slice().to_vec()).map_err(|e| err_class(&e)));
-                }));
+                if kind == b's' {
+                    let mut g = SendRequest::send_request(&conn, request_for(&question(k)));
+                    callers.push(tokio::spawn(async move {
+                        let r = g.get_response().await;
+                        order.lock().unwrap().push(k);
+                        results.lock().unwrap()[k] = Some(match r {
+                            Ok(m) => { let h = parse_hdr(m.as_slice()).unwrap(); format!("A{}.{}.{}", h.rcode, h.an, h.tc as u8) }
+                            Err(e) => if err_class(&e) == "wrong_reply" { "W".to_string() } else { "E".to_string() },
+                        });
+                    }));
+                } else {
+                    let q = kind_q(k, kind);
+                    let mut qb = MessageBuilder::new_vec().question();
+                    qb.push((Name::<Vec<u8>>::from_octets(q.name.clone()).unwrap(), Rtype::from_int(q.qtype))).unwrap();
+                    let req = RequestMessageMulti::new(qb.into_message()).unwrap();
+                    let mut g = SendRequestMulti::send_request(&conn, req);
+                    callers.push(tokio::spawn(async move {
+                        let mut items = String::new();
+                        loop {
+                            match g.get_response().await {
+                                Ok(Some(_)) => items.push('A'),
+                                Ok(None) => { items.push('F'); break; }
+                                Err(e) => if err_class(&e) == "wrong_reply" { items.push('W'); } else { items.push('E'); break; },
+                            }
+                        }
+                        order.lock().unwrap().push(k);
+                        results.lock().unwrap()[k] = Some(items);
+                    }));
+                }
                 submitted.push(k);
-                evs.push(format!("s{}", k));
+                evs.push(format!("{}{}", kind as char, k));
             }
-            Step::Reply(k, v) => if wr_open { if let Some(id) = wire_id(&seen, *k) {
-                wr_open = frame(&mut wr, &reply(*v, id, &question(*k), false)).await;
+            Step::Reply(k, v) => if wr_open { if let Some(id) = wire_id_q(&seen, &kind_q(*k, kinds[*k])) {
+                wr_open = frame(&mut wr, &reply(*v, id, &kind_q(*k, kinds[*k]), false)).await;
                 match variant_fields(*v, id, *k) {
-                    Some((i, qr, rc, qd, an, tc, qs)) => evs.push(format!("p{}:{}:{}:{}:{}:{}:{}", i, qr, rc, qd, an, tc, qs)),
+                    Some((i, qr, rc, qd, an, tc, qs)) => evs.push(format!("p{}:{}:{}:{}:{}:{}:{}:{}", i, qr, rc, qd, an, tc, qs, if qs == "bad" { "bad" } else if an == 1 { "o" } else { "-" })),
                     None => evs.push("f".into()),
                 }
             } },
-            Step::Cross(a, b) => if wr_open { if let Some(id) = wire_id(&seen, *a) {
-                wr_open = frame(&mut wr, &reply(b'G', id, &question(*b), false)).await;
-                evs.push(format!("p{}:1:0:1:0:0:{}", id, b));
+            Step::ReplyX(k, x) => if wr_open { if let Some(id) = wire_id_q(&seen, &kind_q(*k, kinds[*k])) {
+                wr_open = frame(&mut wr, &xrep_bytes(x, id, &kind_q(*k, kinds[*k]))).await;
+                evs.push(xrep_event(x, id, *k));
             } },
-            Step::Junk => if wr_open { wr_open = frame(&mut wr, &reply(b'G', 0x7777, &question(99), false)).await; evs.push(format!("p{}:1:0:1:0:0:99", 0x7777)); },
+            Step::Cross(a, b) => if wr_open { if let Some(id) = wire_id_q(&seen, &kind_q(*a, kinds[*a])) {
+                wr_open = frame(&mut wr, &reply(b'G', id, &kind_q(*b, kinds[*b]), false)).await;
+                evs.push(format!("p{}:1:0:1:0:0:{}:-", id, b));
+            } },
+            Step::Junk => if wr_open { wr_open = frame(&mut wr, &reply(b'G', 0x7777, &question(99), false)).await; evs.push(format!("p{}:1:0:1:0:0:99:-", 0x7777)); },
             Step::ShortFrame => if wr_open { wr_open = frame(&mut wr, &[1, 2, 3]).await; evs.push("f".into()); },
             Step::PartialFrame => if wr_open { let _ = wr.write_all(&[0, 100, 1, 2, 3, 4]).await; let _ = wr.shutdown().await; wr_open = false; evs.push("f".into()); },
             Step::Close => if wr_open { let _ = wr.shutdown().await; wr_open = false; evs.push("f".into()); },
@@ -1133,14 +1211,8 @@ async fn run_demux_script(ncallers: usize, idle_zero: bool, steps: Vec<Step>) ->
     let res = results.lock().unwrap().clone();
     let ord = order.lock().unwrap().clone();
     let cls: Vec<String> = submitted.iter().map(|k| {
-        let wire = wire_id(&seen, *k).map_or("-".to_string(), |i| i.to_string());
-        let r = match &res[*k] {
-            None => "P".to_string(),
-            Some(Ok(m)) => { let h = parse_hdr(m).unwrap(); format!("A{}.{}.{}", h.rcode, h.an, h.tc as u8) }
-            Some(Err(c)) if c == "wrong_reply" => "W".to_string(),
-            Some(Err(_)) => "E".to_string(),
-        };
-        format!("{}={}@{}", k, r, wire)
+        let wire = wire_id_q(&seen, &kind_q(*k, kinds[*k])).map_or("-".to_string(), |i| i.to_string());
+        format!("{}={}@{}", k, res[*k].clone().unwrap_or_else(|| "P".to_string()), wire)
     }).collect();
     drop(conn);
     for c in callers { c.abort(); }
@@ -1150,15 +1222,31 @@ async fn run_demux_script(ncallers: usize, idle_zero: bool, steps: Vec<Step>) ->
     (case, obs)
 }
 
+fn gen_xrep(r: &mut Rng) -> XRep {
+    let qmode = match r.below(20) { 0..=13 => b's', 14..=16 => b'e', 17 | 18 => b'n', _ => b'b' };
+    let rcode = if r.chance(1, 8) { *r.pick(&[3u8, 5]) } else { 0 };
+    let n = r.below(5);
+    let mut recs: Vec<Rec> = (0..n).map(|_| match r.below(10) { 0..=3 => Rec::Soa(1), 4 => Rec::Soa(2), _ => Rec::Other }).collect();
+    if r.chance(1, 12) { recs.push(Rec::Bad); }
+    XRep { qmode, rcode, recs }
+}
+
 fn gen_demux_script(r: &mut Rng) -> (usize, bool, Vec<Step>) {
     let n = r.range(1, 6) as usize;
     let idle_zero = r.chance(1, 4);
     let mut steps = Vec::new();
     let mut submitted = 0usize;
-    for _ in 0..r.range(2, 14) {
+    let multi = r.chance(1, 2);
+    let mut kinds: Vec<u8> = Vec::new();
+    for _ in 0..r.range(2, if multi { 22 } else { 14 }) {
         let x = r.below(14);
-        if submitted == 0 || (x < 4 && submitted < n) { steps.push(Step::Submit(submitted)); submitted += 1; continue; }
+        if submitted == 0 || (x < 4 && submitted < n) {
+            let kind = if multi { *r.pick(b"ssxxy") } else { b's' };
+            kinds.push(kind);
+            steps.push(Step::SubmitK(submitted, kind)); submitted += 1; continue;
+        }
         let k = r.below(submitted as u64) as usize;
+        if kinds[k] != b's' && r.chance(3, 4) || multi && r.chance(1, 8) { steps.push(Step::ReplyX(k, gen_xrep(r))); continue; }
         match x {
             0..=6 => steps.push(Step::Reply(k, b'G')),
             7 | 8 => steps.push(Step::Reply(k, *r.pick(VARIANTS))),
@@ -1183,15 +1271,31 @@ fn part_demux(out: &mut Out, r: &mut Rng, a: &Args) {
         (3, false, vec![Step::Submit(0), Step::Submit(1), Step::Reply(0, b'S'), Step::Submit(2)]),
         (4, false, vec![Step::Submit(0), Step::Submit(1), Step::Submit(2), Step::Reply(1, b'G'), Step::Submit(3), Step::Reply(1, b'G'), Step::Reply(3, b'I'), Step::PartialFrame]),
     ];
+    let soa = |s: u32| Rec::Soa(s);
+    let xr = |qmode: u8, rcode: u8, recs: Vec<Rec>| XRep { qmode, rcode, recs };
+    scripts.push((2, false, vec![Step::SubmitK(0, b'x'), Step::ReplyX(0, xr(b's', 0, vec![soa(1), Rec::Other])), Step::ReplyX(0, xr(b'e', 0, vec![Rec::Other, Rec::Other])),
+        Step::SubmitK(1, b's'), Step::ReplyX(0, xr(b'e', 0, vec![Rec::Other, soa(1)])), Step::ReplyX(0, xr(b's', 0, vec![Rec::Other])), Step::Reply(1, b'G')]));
+    scripts.push((2, false, vec![Step::SubmitK(0, b'y'), Step::ReplyX(0, xr(b's', 0, vec![soa(3), soa(1), Rec::Other, soa(3), Rec::Other])), Step::ReplyX(0, xr(b's', 0, vec![soa(3)]))]));
+    scripts.push((2, false, vec![Step::SubmitK(0, b'y'), Step::ReplyX(0, xr(b's', 0, vec![soa(3)]))]));
+    scripts.push((2, false, vec![Step::SubmitK(0, b'y'), Step::ReplyX(0, xr(b's', 0, vec![soa(3), Rec::Other])), Step::ReplyX(0, xr(b's', 0, vec![Rec::Other, soa(3)]))]));
+    scripts.push((2, true, vec![Step::SubmitK(0, b'x'), Step::ReplyX(0, xr(b's', 3, vec![])), Step::SubmitK(1, b's')]));
+    scripts.push((2, false, vec![Step::SubmitK(0, b'x'), Step::ReplyX(0, xr(b'n', 0, vec![soa(1)])), Step::ReplyX(0, xr(b's', 0, vec![soa(1), soa(1)])), Step::Close]));
+    scripts.push((2, false, vec![Step::SubmitK(0, b'x'), Step::ReplyX(0, xr(b's', 0, vec![soa(1)])), Step::ReplyX(0, xr(b'b', 0, vec![soa(1)])), Step::ReplyX(0, xr(b's', 0, vec![soa(1)]))]));
+    scripts.push((2, false, vec![Step::SubmitK(0, b'x'), Step::ReplyX(0, xr(b's', 0, vec![soa(1), Rec::Bad])), Step::ReplyX(0, xr(b's', 0, vec![soa(1), soa(1), Rec::Other]))]));
+    scripts.push((2, false, vec![Step::SubmitK(0, b'x'), Step::ReplyX(0, xr(b's', 0, vec![soa(1), soa(2)])), Step::ReplyX(0, xr(b's', 0, vec![soa(1)])), Step::ReplyX(0, xr(b'e', 5, vec![]))]));
+    scripts.push((2, false, vec![Step::SubmitK(0, b'x'), Step::ReplyX(0, xr(b's', 0, vec![])), Step::ReplyX(0, xr(b's', 0, vec![Rec::Other]))]));
     for _ in 0..n { scripts.push(gen_demux_script(r)); }
     for (nc, iz, steps) in scripts {
         out.begin("demux script");
         // caller numbers must be unique per script: the corpus re-submits on purpose only in the model-free part
         let mut seen_k = std::collections::HashSet::new();
-        let steps: Vec<Step> = steps.into_iter().filter(|s| match s { Step::Submit(k) => seen_k.insert(*k), _ => true }).collect();
-        let (case, obs) = rt.block_on(async { tokio::spawn(run_demux_script(nc.max(4), iz, steps)).await.unwrap_or(("sm 0".into(), "Panic".into())) });
-        out.check(obs != "Panic", "panic_transport", &case, "the demux script task panicked");
-        out.check(!obs.contains("=P@"), "never_completes", &case, "a caller was still pending after the connection was closed");
+        let steps: Vec<Step> = steps.into_iter().filter(|s| match s { Step::Submit(k) | Step::SubmitK(k, _) => seen_k.insert(*k), _ => true }).collect();
+        let (case, obs) = rt.block_on(async { match tokio::spawn(run_demux_script(nc.max(6), iz, steps)).await {
+            Ok(x) => x,
+            Err(e) => ("sm 0".to_string(), format!("Panic {}", match e.try_into_panic() { Ok(p) => p.downcast_ref::<String>().cloned().or_else(|| p.downcast_ref::<&str>().map(|s| s.to_string())).unwrap_or_default(), Err(_) => String::new() })),
+        } });
+        out.check(!obs.starts_with("Panic"), "panic_transport", &case, &obs);
+        out.check(!obs.contains("P@"), "never_completes", &case, "a caller was still pending after the connection was closed");
         out.case(&case, &obs, case.matches(" p").count() >= 1, "demux");
     }
 }
@@ -1200,7 +1304,7 @@ fn part_demux(out: &mut Out, r: &mut Rng, a: &Args) {
 // dgram_stream (UDP first, stream on truncation), redundant and load_balancer
 // over the mocks; paused clock.
 
-struct TcpShared { mode: u8, seen: Vec<Vec<u8>>, q: Q, connects: u32 }   // mode: G good reply, W wrong question, C close after the request, N connect error
+struct TcpShared { modes: Vec<u8>, seen: Vec<Vec<u8>>, q: Q, connects: u32 }   // modes: one per connection made, the last one repeats   // mode: G good reply, W wrong question, C close after the request, N connect error
 #[derive(Clone)]
 struct TcpMock(Arc<Mutex<TcpShared>>);
 impl std::fmt::Debug for TcpMock { fn fmt(&self, f: &mut std::fmt::Formatter<'_>) -> std::fmt::Result { f.write_str("TcpMock") } }
@@ -1209,7 +1313,7 @@ impl AsyncConnect for TcpMock {
     type Connection = tokio::io::DuplexStream;
     type Fut = std::future::Ready<Result<tokio::io::DuplexStream, std::io::Error>>;
     fn connect(&self) -> Self::Fut {
-        let mode = { let mut s = self.0.lock().unwrap(); s.connects += 1; s.mode };
+        let mode = { let mut s = self.0.lock().unwrap(); s.connects += 1; let i = (s.connects as usize - 1).min(s.modes.len() - 1); s.modes[i] };
         if mode == b'N' { return std::future::ready(Err(std::io::Error::other("scripted connect error"))); }
         let (c, s) = tokio::io::duplex(1 << 16);
         let sh = self.0.clone();
@@ -1234,12 +1338,12 @@ impl AsyncConnect for TcpMock {
 
 struct DsResult { res: Option<Result<Vec<u8>, String>>, udp_sent: Vec<(u64, Vec<u8>)>, tcp_seen: Vec<Vec<u8>>, panicked: bool }
 
-fn run_dgram_stream(retries: u8, timeout: u64, attempts: Vec<Attempt>, tcp_mode: u8, q: Q) -> DsResult {
+fn run_dgram_stream(retries: u8, timeout: u64, attempts: Vec<Attempt>, tcp_modes: Vec<u8>, q: Q) -> DsResult {
     let rt = paused_rt();
     rt.block_on(async move {
         let start = tokio::time::Instant::now();
         let sh = Arc::new(Mutex::new(DgShared { attempts, next: 0, sent: vec![], start, q: q.clone(), aa: false }));
-        let tsh = Arc::new(Mutex::new(TcpShared { mode: tcp_mode, seen: vec![], q: q.clone(), connects: 0 }));
+        let tsh = Arc::new(Mutex::new(TcpShared { modes: tcp_modes, seen: vec![], q: q.clone(), connects: 0 }));
         let mut dcfg = dgram::Config::new();
         dcfg.set_max_retries(retries);
         dcfg.set_read_timeout(Duration::from_millis(timeout));
@@ -1269,7 +1373,12 @@ fn part_dgram_stream(out: &mut Out, r: &mut Rng, a: &Args) {
     for k in 0..n {
         let retries = r.below(2) as u8;
         let timeout = 50u64;
-        let tcp_mode = if k < 8 { b"GWCN"[(k % 4) as usize] } else { *r.pick(b"GGGGGWCN") };
+        // the stream peer per connection made: answers / wrong question / closes after the request / refuses;
+        // sequences exercise multi_stream's reconnect (first connection fails, a later one answers)
+        let tcp_modes: Vec<u8> = if k < 8 { vec![b"GWCN"[(k % 4) as usize]] } else {
+            match r.below(10) { 0 => b"CG".to_vec(), 1 => b"NG".to_vec(), 2 => b"CCG".to_vec(), 3 => b"NCG".to_vec(), _ => vec![*r.pick(b"GGGGGWCN")] } };
+        let tcp_mode = tcp_modes[0];
+        let healthy_later = tcp_modes.len() > 1;
         let mut attempts: Vec<Attempt> = (0..retries as usize + 1).map(|_| {
             let mut pk = Vec::new();
             if r.chance(1, 3) { pk.push(Pkt { off: r.below(20), v: *r.pick(b"INQSBZ") }); }
@@ -1278,10 +1387,10 @@ fn part_dgram_stream(out: &mut Out, r: &mut Rng, a: &Args) {
         }).collect();
         // fixed: a truncated answer, without and with answer records, against each stream peer
         if k < 8 { attempts = vec![Attempt { fault: b'-', pkts: vec![Pkt { off: 5, v: if k < 4 { b'T' } else { b'K' } }] }]; }
-        let case = format!("dgram_stream retries={} tcp={} {}", retries, tcp_mode as char, attempts.iter().map(attempt_tok).collect::<Vec<_>>().join("|"));
+        let case = format!("dgram_stream retries={} tcp={} {}", retries, String::from_utf8_lossy(&tcp_modes), attempts.iter().map(attempt_tok).collect::<Vec<_>>().join("|"));
         out.begin(&case);
         let q = question(2);
-        let res = run_dgram_stream(retries, timeout, attempts.clone(), tcp_mode, q.clone());
+        let res = run_dgram_stream(retries, timeout, attempts.clone(), tcp_modes.clone(), q.clone());
         out.oracle_case(&case, true, "dgram_stream");
         out.check(!res.panicked, "panic_transport", &case, "a transport task panicked");
         // did an answering TC reply arrive inside the window of an attempt that was made?
@@ -1303,6 +1412,10 @@ fn part_dgram_stream(out: &mut Out, r: &mut Rng, a: &Args) {
                     out.check(!res.tcp_seen.is_empty(), "tc_not_retried", &case, "truncated datagram answer, stream available, but no request was sent over the stream");
                 }
             }
+        }
+        if healthy_later {
+            // whatever happened on the failed connections, at most the caller's question went out, each time
+            out.check(res.tcp_seen.iter().all(|d| parse_qs(d).as_deref() == Some(std::slice::from_ref(&q))), "request_altered", &case, "a stream request does not carry the caller's question");
         }
         if tcp_mode == b'G' && matches!(&res.res, Some(Ok(m)) if parse_hdr(m).map_or(false, |h| h.aa)) {
             out.check(udp_tc, "stream_used_without_truncation", &case, "answer came over the stream although no truncated datagram answer was received");
